@@ -259,6 +259,26 @@ func main() {
 
 	var ms0 runtime.MemStats
 	runtime.ReadMemStats(&ms0)
+	// what counts is the largest amount of heap in use at any moment while the hostile streams are fed (a frame announcing
+	// 2^30 bytes that got its buffer shows as a gigabyte here), not the total of short-lived garbage: sampled every 2 ms
+	var peak uint64
+	stopSample := make(chan struct{})
+	sampled := make(chan struct{})
+	go func() {
+		defer close(sampled)
+		var ms runtime.MemStats
+		for {
+			select {
+			case <-stopSample:
+				return
+			case <-time.After(2 * time.Millisecond):
+			}
+			runtime.ReadMemStats(&ms)
+			if ms.HeapAlloc > peak {
+				peak = ms.HeapAlloc
+			}
+		}
+	}()
 
 	// ---- 1. malformed streams -----------------------------------------------------------------
 	nstream := 72
@@ -299,7 +319,10 @@ func main() {
 
 	var ms1 runtime.MemStats
 	runtime.ReadMemStats(&ms1)
-	w.P("Definition alloc_mb : N := %d.", (ms1.TotalAlloc-ms0.TotalAlloc)>>20)
+	close(stopSample)
+	<-sampled
+	w.P("Definition alloc_mb : N := %d.", peak>>20)
+	w.P("Definition total_alloc_mb : N := %d.", (ms1.TotalAlloc-ms0.TotalAlloc)>>20)
 
 	// ---- 2. broken and stalled handshakes do not delay other peers -------------------------------
 	var hitems []string
